@@ -9,11 +9,11 @@ from props import c03_util as U
 PROP = "C03"
 LEVEL = "proof"
 GEN_UNITS = ["GenUtils", "GenUtils2"]   # GenUtils2: tt_union_rows (S != T)
-COQ_TARGETS = ["Props/C03.vo", "Props/C03Src.vo", "Props/C03Gen2.vo", "Props/C03Kr.vo", "Model/Harness.vo", "Model/C03Chk.vo",
-               "Model/C03Chk2.vo", "Model/C03Kr.vo", "Model/C03Ord0.vo"]
-THEOREM_FILES = ["Props/C03.v", "Props/C03Src.v", "Props/C03Gen2.v", "Props/C03Kr.v"]
+COQ_TARGETS = ["Props/C03.vo", "Props/C03Src.vo", "Props/C03Gen2.vo", "Props/C03Kr.vo", "Props/C03W5.vo", "Props/C03Hist.vo", "Model/Harness.vo", "Model/C03Chk.vo",
+               "Model/C03Chk2.vo", "Model/C03Kr.vo", "Model/C03Ord0.vo", "Model/C03W5.vo", "Model/C03Hist.vo"]
+THEOREM_FILES = ["Props/C03.v", "Props/C03Src.v", "Props/C03Gen2.v", "Props/C03Kr.v", "Props/C03W5.v", "Props/C03Hist.v"]
 COQ_IMPORTS = ("From Coq Require Import List ZArith Bool QArith Qcanon.\n"
-               "From PV Require Import Base.Index Np.Array Model.Sparse Model.Repr Model.Harness Model.C03Ops Model.C03Chk Model.C03Chk2 Model.C03Kr Model.C03Ord0.\n"
+               "From PV Require Import Base.Index Np.Array Model.Sparse Model.Repr Model.Harness Model.C03Ops Model.C03Chk Model.C03Chk2 Model.C03Kr Model.C03Ord0 Model.C03W5 Model.C03Hist.\n"
                # case indices >= 5000 are nat literals that make coqc print one warning each; the driver reads the pipe only
                # after the process ends, so the warnings must be silenced or the shard blocks on a full pipe
                'Set Warnings "-abstract-large-number".\n')
@@ -32,7 +32,13 @@ RULE = ("every binary operator (+ - * / and or xor == != < <= > >=) x right-hand
         "Wave 4: Kruskal right-hand sides (S * K, S / K; ranks 0..3, integer entries all >= 1 or signed with zeros, all zero patterns of the sparse "
         "operand on (2,2), (3,), sampled on (2,1,2) and random shapes, factor layouts F / C / view) against spec_mul_k / spec_div_k and list for list "
         "against the transliterated loops (mulmodel / divmodel); order-0 operands (shape ()): every operator x {sparse, dense, scalar, Kruskal}, "
-        "unary operations and 115 two-step histories, every result must be an empty container")
+        "unary operations and 115 two-step histories, every result must be an empty container. Wave 5: histories on ONE object hist:<op0>,<op1> - "
+        "a request X op0 R0 on a small initial tensor, then 1..3 in-place element assignments on X (3 of 4 histories grow the shape past its bounds, "
+        "also by a zero assigned outside; entries added, overwritten, deleted), then a second request that uses the SAME object (left operand, or sparse "
+        "right operand) and the same request on the tensor rebuilt by the constructor: EVERY pair (first request, second request) of the request table "
+        "(every operator x {scalar, dense, sparse} + neg / not / ones / elemfun; 43 x 43 pairs + 43 x 12 with the object on the right), the three raw "
+        "results against the element-wise specification and the two second results equal list for list; sparse / dense requests run a second time "
+        "list for list against the transliteration (divmodel)")
 CORRESPONDENCE_ONLY = []   # filled below
 EXPLANATION = ("pyttb's raw result (sparse: shape/subs/vals lists; dense: F-order data) is compared in Coq against the executable "
                "element-wise specification spec_ew / spec_div (Model/C03Ops.v; two-step histories: spec_then, Model/C03Chk.v) evaluated on "
@@ -48,6 +54,9 @@ EXPLANATION = ("pyttb's raw result (sparse: shape/subs/vals lists; dense: F-orde
                "Wave 4: S * K and S / K (Kruskal operand) are transliterated loop for loop (Model/C03Kr.v), proved for any commutative ring "
                "(Props/C03Kr.v) and tied list for list (ops mulmodel / divmodel); order-0 operands (pyttb's empty tensor) must give empty "
                "containers (Model/C03Ord0.v); operands holding int64 / int32 / int8 / float32 values. "
+               "Wave 5: S * K is the repaired code (filter + early return; C03_mul_kruskal_filtered is the claimed theorem, findings C03-K1 / K2 fixed); "
+               "sparse / dense as the code is tied list for list (Model/C03W5.v zdiv_dense, C03_div_dense_rows / _exact_iff); histories on one object "
+               "(operator, in-place assignments that grow / change the tensor, operator again on the same object vs. the rebuilt tensor). "
                "Finite clause of the property text: quick = ALL 4^cells zero-pattern pairs x EVERY binary operator x {sparse, dense} "
                "right-hand side for every shape of <= 4 cells used ((2,2), (3,), (2,1)); thorough adds all pattern pairs of (2,3) "
                "(6 cells, 3 operators per pair, rotating) and (2,2,2) (8 cells, 1 operator per pair, rotating): every pair of patterns up "
@@ -254,7 +263,7 @@ def gen_cases(rng, tier):
                 add(op, a)
     # 10. (wave 4) Kruskal right-hand side: S * K and S / K; ALL zero patterns of the sparse operand on the small shapes, ranks
     #     0..3, weights / factor entries either all >= 1 (the Kruskal tensor is >= 1 everywhere: the eps clamp is inactive and the
-    #     quotient must be the element-wise one) or signed with zeros (clamp / explicit-zero classes: open findings C03-K2, C03-K3);
+    #     quotient must be the element-wise one) or signed with zeros (zero products are filtered: repaired C03-K2; eps clamp: open finding C03-K3);
     #     factor matrices F-contiguous, C-contiguous or strided views
     k = 0
     kshapes = [(2, 2), (3,), (2, 1, 2)] + ([(2, 3), (1, 3), (2, 2, 2)] if big else [])
@@ -349,6 +358,32 @@ def gen_cases(rng, tier):
                                 c=rng.choice(SCALARS))
                 a["layout"] = {"A": "assigned", "B": "assigned"}
                 add(op, a)
+    # 15. (wave 5) histories on ONE object: a request X op0 R0 on the initial tensor, then in-place element assignments on X (growing the
+    #     shape past its bounds - also by a ZERO assigned outside -, adding, overwriting, deleting entries), then a second request that
+    #     uses the SAME object X (as the left operand, or as the sparse right operand), and the same second request on the tensor
+    #     rebuilt by the constructor: EVERY (first request, second request) pair of the request table (every operator x {scalar, dense,
+    #     sparse} + unary; sparse / sparse and sparse / dense division are left to their own sections), all three raw results observed
+    reqs = hist_requests()
+    k = 0
+    for rep in range(3 if big else 1):
+        for q0 in reqs:
+            for q1 in reqs:
+                cases.append(hist_case(rng, k, q0, q1, "A"))
+                k += 1
+    for rep in range(4 if big else 1):
+        for q0 in reqs:
+            for op1 in U.BINOPS:
+                if op1 != "div":
+                    cases.append(hist_case(rng, k, q0, (op1, "sparse"), "B"))
+                    k += 1
+    #     who = "T": the object with a history is the DENSE right operand (element assignments grow it: pyttb installs a new zero array):
+    #     every (first operator, second operator) pair with a dense operand
+    dense_ops = [op for op in U.BINOPS if op != "div"]
+    for rep in range(3 if big else 1):
+        for op0 in dense_ops:
+            for op1 in dense_ops:
+                cases.append(hist_case_dense(rng, k, op0, op1))
+                k += 1
     # 9. the witnesses of the repaired findings, as ordinary regression cases
     for op, a in REGRESSION:
         add(op, {k: (list(v) if isinstance(v, list) else v) for k, v in a.items()})
@@ -356,10 +391,11 @@ def gen_cases(rng, tier):
 
 
 # (operator, right-hand side kind) whose transliteration over the generated helpers is tied list for list
-MODEL_OPS = {("div", "sparse"), ("ne", "sparse"), ("eq", "dense"), ("ne", "dense"), ("mul", "kruskal"), ("div", "kruskal")}
-# S * K as the code is (every stored row kept: open finding C03-K2).  When fixes/C03-7-K1-K2.diff is applied to /repo: flip C03-K1 and
-# C03-K2 to fixed, delete their triggers / witnesses and set this to True (the filtered transliteration impl_mul_k_filtered, theorem
-# C03_mul_kruskal_filtered, becomes the one accepted behaviour of the list-for-list tie `mulmodel`)
+MODEL_OPS = {("div", "sparse"), ("div", "dense"), ("ne", "sparse"), ("eq", "dense"), ("ne", "dense"), ("mul", "kruskal"), ("div", "kruskal")}
+# S * K: the repaired code (/repo d4293a0, findings C03-K1 / C03-K2 fixed) = the loops + `keep = cvals[:, 0] != 0` + the early return for an
+# operand that stores nothing.  ONE accepted behaviour: the filtered transliteration impl_mul_k_filtered (claimed theorem
+# C03_mul_kruskal_filtered; list for list C03_mul_kruskal_filtered_rows / _Z_rows) is what the tie `mulmodel` runs.  (False = the tree
+# before d4293a0, kept only so that the check can be replayed against an old tree.)
 KRUSKAL_FILTERED = True
 IDENT_MODES = ("cancel_all", "cancel_some", "equal", "mixed")
 LAYOUTS = ("F", "C", "view")
@@ -374,6 +410,104 @@ SECOND_OPS = (("eq", {"k": "scalar", "c": 0}), ("ne", {"k": "scalar", "c": 0}), 
               ("gt", {"k": "scalar", "c": -1}), ("ones", {"k": "un"}), ("neg", {"k": "un"}), ("div", {"k": "scalar", "c": 0}),
               ("div", {"k": "scalar", "c": 2}), ("mul", {"k": "scalar", "c": 0}), ("ge", {"k": "R"}), ("lt", {"k": "A"}),
               ("and", {"k": "R"}), ("ne", {"k": "A"}), ("add", {"k": "A"}), ("mul", {"k": "scalar", "c": -1}))
+
+
+# wave 5: shapes a history starts from, and the request table of the histories
+HIST_SHAPES0 = ((1, 2), (2,), (2, 2), (1, 1, 2), (2, 1), (1,), (1, 1))
+
+
+def hist_requests():
+    reqs = [(op, "scalar") for op in ops_for("scalar")]
+    reqs += [(op, rk) for rk in ("dense", "sparse") for op in U.BINOPS if op != "div"]
+    reqs += [(op, None) for op in ("neg", "not", "ones", "elemfun:minus2")]
+    return reqs
+
+
+def hist_rhs(a, rk, rng, c=None):
+    """right-hand side of kind rk for the sparse operand held in a (values forced equal at some stored positions)"""
+    shape = a["shape"]
+    n = math.prod(shape)
+    if rk is None:
+        return a
+    a["rk"] = rk
+    if rk == "scalar":
+        a["c"] = rng.choice(SCALARS) if c is None else c
+        return a
+    here = {tuple(s): v for s, v in zip(a["subs"], a["vals"])}
+    vb = []
+    for s in tgen.all_subs(shape):
+        v = rng.choice(VALS) if rng.random() < 0.55 else 0
+        if v and tuple(s) in here and rng.random() < 0.4:
+            v = here[tuple(s)]
+        vb.append(v)
+    if rk == "dense":
+        a["bd"] = vb
+    else:
+        a["bsubs"], a["bvals"] = sparse_from_pattern(shape, [int(v != 0) for v in vb], rng, rng.choice(ORDERS), vb)
+    return a
+
+
+def hist_case(rng, k, q0, q1, who):
+    """one history: initial tensor X0 (small shape, any stored order), first request q0 = (op0, kind) on it, 1..3 element assignments
+    on the object (3 of 4 histories grow the shape), second request q1 with the object as operand `who`"""
+    shape0 = HIST_SHAPES0[k % len(HIST_SHAPES0)]
+    n0 = math.prod(shape0)
+    subs0, vals0 = sparse_from_pattern(shape0, [int(rng.random() < 0.6) for _ in range(n0)], rng, rng.choice(ORDERS))
+    a0 = hist_rhs({"shape": list(shape0), "subs": subs0, "vals": vals0}, q0[1], rng)
+    grow = (k // len(HIST_SHAPES0)) % 4 != 3
+    assigns = []
+    shape = list(shape0)
+    if grow:
+        m = rng.randrange(len(shape0))
+        sub = [rng.randrange(d) for d in shape]
+        sub[m] = shape[m] + rng.randrange(2)
+        if len(shape0) > 1 and rng.random() < 0.3:
+            m2 = (m + 1) % len(shape0)
+            sub[m2] = shape[m2]
+        assigns.append([sub, 0 if rng.random() < 0.15 else rng.choice(VALS)])
+        shape = [max(d, x + 1) for d, x in zip(shape, sub)]
+    for _ in range(rng.randrange(0 if grow else 1, 3)):
+        sub = [rng.randrange(d) for d in shape]
+        assigns.append([sub, 0 if rng.random() < 0.3 else rng.choice(VALS)])
+    shape, subs, vals = U.sim_assign(shape0, subs0, vals0, assigns)
+    hist = {"who": who, "a0": a0, "assign": assigns}
+    if who == "A":
+        a = hist_rhs({"shape": shape, "subs": subs, "vals": vals}, q1[1], rng)
+    else:
+        n = math.prod(shape)
+        osubs, ovals = sparse_from_pattern(shape, [int(rng.random() < 0.5) for _ in range(n)], rng, rng.choice(ORDERS))
+        here = {tuple(s): v for s, v in zip(subs, vals)}
+        ovals = [here[tuple(s)] if tuple(s) in here and rng.random() < 0.4 else v for s, v in zip(osubs, ovals)]
+        a = {"shape": shape, "subs": osubs, "vals": ovals, "rk": "sparse", "bsubs": subs, "bvals": vals}
+    a["hist"] = hist
+    return Case(f"hist:{q0[0]},{q1[0]}", a, math.prod(shape) > 1)
+
+
+def hist_case_dense(rng, k, op0, op1):
+    """history on the DENSE right operand: S0 op0 T0 on a small shape (>= 2 cells so that pyttb's data is a proper array), 1..3 element
+    assignments on T (3 of 4 grow it), A op1 T with the same object"""
+    shape0 = (HIST_SHAPES0[:5])[k % 5]
+    n0 = math.prod(shape0)
+    subs0, vals0 = sparse_from_pattern(shape0, [int(rng.random() < 0.6) for _ in range(n0)], rng, rng.choice(ORDERS))
+    a0 = hist_rhs({"shape": list(shape0), "subs": subs0, "vals": vals0}, "dense", rng)
+    grow = (k // 5) % 4 != 3
+    assigns = []
+    shape = list(shape0)
+    if grow:
+        m = rng.randrange(len(shape0))
+        sub = [rng.randrange(d) for d in shape]
+        sub[m] = shape[m] + rng.randrange(2)
+        assigns.append([sub, 0 if rng.random() < 0.15 else rng.choice(VALS)])
+        shape = [max(d, x + 1) for d, x in zip(shape, sub)]
+    for _ in range(rng.randrange(0 if grow else 1, 3)):
+        assigns.append([[rng.randrange(d) for d in shape], 0 if rng.random() < 0.3 else rng.choice(VALS)])
+    shape, bd = U.sim_assign_dense(shape0, a0["bd"], assigns)
+    n = math.prod(shape)
+    subs, vals = sparse_from_pattern(shape, [int(rng.random() < 0.5) for _ in range(n)], rng, rng.choice(ORDERS))
+    dd = dict(zip(map(tuple, tgen.all_subs(shape)), bd))
+    vals = [dd[tuple(s)] if dd[tuple(s)] and rng.random() < 0.4 else v for s, v in zip(subs, vals)]
+    a = {"shape": shape, "subs": subs, "vals": vals, "rk": "dense", "bd": bd, "hist": {"who": "T", "a0": a0, "assign": assigns}}
+    return Case(f"hist:{op0},{op1}", a, True)
 
 
 def identical_args(shape, pa, rng, mode):
@@ -437,6 +571,8 @@ def base_op(op):
 
 
 def run_impl(c):
+    if c.op.startswith("hist:"):
+        return U.run_hist(c.op, c.args)
     return U.run_history(base_op(c.op), c.args)
 
 
@@ -533,6 +669,9 @@ def model_expr(op, a, o):
         if not tgen.all_int(o["vals"]):
             return "false"
         return f"{'mul_k_filtered_model_ok' if KRUSKAL_FILTERED else 'mul_k_model_ok'} {gobs_sparse_z(o)} {A} {U.gkt(a)}"
+    if op == "div" and a["rk"] == "dense":
+        # wave 5: sparse / dense as the code is (stored rows in stored order, each x / T[s]; open finding C03-N5), Model/C03W5.v
+        return f"div_dense_model_ok {gobs_sparse_x(o)} {A} {tgen.gdense(a['shape'], a['bd'])}"
     if op == "div":
         return f"div_model_ok {gobs_sparse_x(o)} {A} {U.gsp(a, 'bsubs', 'bvals')}"
     if not tgen.all_int(o["vals"]):
@@ -547,6 +686,25 @@ def coq_check(c, o):
     a = c.args
     if "exc" in o or o.get("kind") != "steps" or not o.get("intact", False):
         return "false"
+    if c.op.startswith("hist:"):
+        # wave 5: first request on the initial tensor, second request on the object changed in place AND on the rebuilt tensor: each raw
+        # result is well-formed and denotes the element-wise specification on the literal operands; both second results are the same lists
+        op0, op1 = c.op[5:].split(",")
+        if len(o["steps"]) != 3 or not o.get("same_as_rebuilt", False):
+            return "false"
+        h = a["hist"]
+        z0, x0 = first_spec(op0, h["a0"])
+        z1, x1 = first_spec(op1, a)
+        # the stored lists of the object after its history ARE the lists of the Coq model of the assignments (Model/C03Hist.v sp_assigns;
+        # theorems C03_assign / C03_assigns_wf), stored order included
+        st = o.get("state")
+        if h["who"] == "T":      # dense object with a history: its data after the assignments is compared raw by the runner (intact)
+            return " && ".join(f"({e})" for e in (step_expr(o["steps"][0], z0, x0), step_expr(o["steps"][1], z1, x1), step_expr(o["steps"][2], z1, x1)))
+        if not st or not tgen.all_int(st["vals"]):
+            return "false"
+        asg = "[" + "; ".join(f"({gnlist(sub)}, {gz(val)})" for sub, val in h["assign"]) + "]" if h["assign"] else "(@nil (list nat * Z))"
+        es = f"hist_state_ok {tgen.gsparse(st['shape'], st['subs'], st['vals'])} {U.gsp(h['a0'])} {asg}"
+        return " && ".join(f"({e})" for e in (es, step_expr(o["steps"][0], z0, x0), step_expr(o["steps"][1], z1, x1), step_expr(o["steps"][2], z1, x1)))
     ops = c.op.split(":")[1:] if c.op.startswith("then:") else [c.op]
     if len(o["steps"]) != len(ops):
         return "false"
@@ -572,10 +730,14 @@ def coq_check(c, o):
 # brute-force oracle (pure Python loops; shares nothing with pyttb or with the Coq model)
 # ---------------------------------------------------------------------------------------------
 def oracle(c, o):
+    if c.op.startswith("hist:"):
+        return U.judge_hist(o, c.op, c.args)
     if c.args["shape"] == []:
         return U.judge_ord0(o)
     if c.op.endswith("model") and c.args.get("rk") == "kruskal":
         return U.judge_k_asis(o, base_op(c.op), c.args, KRUSKAL_FILTERED)
+    if c.op == "divmodel" and c.args.get("rk") == "dense":
+        return U.judge_div_dense_asis(o, c.args)
     if c.op == "divmodel":
         return U.judge_div_asis(o, c.args)
     return U.judge_steps(o, base_op(c.op), c.args, zeros_ok=False)
@@ -611,18 +773,6 @@ def _div_dense_00(c):
 
 def _kr(c, ops):
     return c.args.get("rk") == "kruskal" and c.op in ops and c.args["shape"] != []
-
-
-def _kruskal_sparse_empty(c):
-    """C03-K1: the sparse operand stores nothing and the Kruskal tensor has at least one component (IndexError: the
-    (1, 0)-shaped empty subs array is indexed by column inside the loop over the components; rank 0 never enters it)"""
-    return _kr(c, ("mul", "div", "mulmodel", "divmodel")) and len(c.args["subs"]) == 0 and len(c.args["kw"]) > 0
-
-
-def _mul_kruskal_zero_at_stored(c):
-    """C03-K2: the Kruskal tensor vanishes at a stored subscript (the zero product is stored explicitly: exact class, see
-    theorem C03_mul_kruskal_Z_wf_iff)"""
-    return _kr(c, ("mul",)) and any(U.kvalue(c.args, s) == 0 for s in c.args["subs"])
 
 
 def _div_kruskal_clamped(c):
@@ -674,7 +824,7 @@ WITNESS_INPUTS = {
 WITNESSES = {k: _witness(*v) for k, v in WITNESS_INPUTS.items()}
 # witnesses of repaired findings (A-07 same support / opposite stored orders; the same on a 1-way tensor; C03-DT2 empty / empty)
 REGRESSION = [
-    # witnesses of C03-K1 / C03-K2 (repaired in /repo by fixes/C03-7-K1-K2.diff): ordinary regression cases now
+    # witnesses of C03-K1 / C03-K2 (repaired in /repo d4293a0): ordinary regression cases
     ("mul", dict(W22, subs=[], vals=[], rk="kruskal", **WK)),
     ("mul", dict(W22, subs=[[1, 1], [0, 0], [0, 1]], vals=[3, 2, 5], rk="kruskal", **WK)),
     ("div", dict(W22, subs=[[1, 1], [0, 0]], vals=[3, 2], rk="sparse", bsubs=[[0, 0], [1, 1]], bvals=[5, 7])),
@@ -694,20 +844,29 @@ CORRESPONDENCE_ONLY = [
     "nonzero is divided by an implicit zero, every position stored), the full statement is refuted (C03_div_sparse_refuted), and the "
     "transliteration is tied to pyttb list for list (op divmodel); the CORRECT quotient (+-inf at x/0, nothing stored at 0/x) is "
     "checked against the executable IEEE specification spec_div only",
-    "__truediv__ with a DENSE right-hand side at positions where both operands are 0 (open finding C03-N5: C03_div_dense_refuted / _partial)",
+    "__truediv__ with a DENSE right-hand side at positions where both operands are 0 (open finding C03-N5): the code as it is IS proved list for "
+    "list (C03_div_dense_rows), right exactly where the operands are not both 0 (C03_div_dense_exact_iff, C03_div_dense_partial / _refuted) and tied "
+    "list for list (op divmodel, dense operand); the CORRECT quotient (NaN at 0/0) is checked against the executable specification spec_div only",
     "__rtruediv__ (scalar / sparse) and sparse (+ - or xor) scalar/dense: full() then the dense operator: proved generically "
     "(C03_dense_result_scalar / _dense for any element function), the dense operator itself is tensor.py's (C02)",
     "inside __eq__ (dense) / __ne__ (dense): the order in which tensor.find() (F order) and np.where (first mode slowest) list the zero "
     "positions of the dense operand, and the dense gather other[self.subs], are modelled by hand (den_dense, allsubs / allsubsC); the rest of "
     "both paths is over the generated helpers and proved (Props/C03Gen2.v); tied list for list (ops eqmodel / nemodel)",
+    "histories on ONE object (hist:<op0>,<op1>: request, in-place element assignments that grow the shape / add / overwrite / delete entries, request "
+    "again with the same object, same request on the tensor rebuilt by the constructor): every raw result against the element-wise specification on the "
+    "literal operands; the single-subscript assignment is a hand model (Model/C03Hist.v sp_assign: overwrite in place / delete / append, shape = "
+    "max(dim, sub + 1)) with theorems (C03_assign: well-formed, point update, shape grows; C03_not_after_assign / C03_cmp_scalar_after_assign: every "
+    "position of the GROWN shape is marked), tied list for list to the object's stored lists after its history (hist_state_ok); that pyttb answers "
+    "the second request from the object's current state (and not from anything kept from the first request) is what the correspondence checks; "
+    "block / slice assignments and order-expanding assignments are not generated",
     "two-step histories (A op1 R1) op2 R2, memory layouts of the operands (F / C / strided views), operands unchanged after the call, "
     "integer dtype of the result's subscripts and full() of every sparse result: correspondence only (composition of the per-operator theorems "
     "needs the intermediate to be well-formed, which the theorems give; the Python object identity / layout is not modelled)",
-    "sparse / Kruskal where the eps clamp is visible (K <= 0 at a stored subscript, K = 0 at an implicit zero: open finding C03-K3) and sparse * "
-    "Kruskal where K vanishes at a stored subscript (explicit zero stored: open finding C03-K2): the code as it is IS proved (C03_mul_kruskal, "
-    "C03_div_kruskal_ieee) and tied list for list (ops mulmodel / divmodel); the CORRECT result on those classes is checked against the "
-    "executable specification spec_mul_k / spec_div_k only. Memory layout of the factor matrices, Kruskal operand unchanged after the call: "
-    "correspondence only",
+    "sparse / Kruskal where the eps clamp is visible (K <= 0 at a stored subscript, K = 0 at an implicit zero: open finding C03-K3): the code "
+    "as it is IS proved (C03_div_kruskal_ieee, exact class C03_div_kruskal_exact_iff) and tied list for list (op divmodel); the CORRECT quotient "
+    "on that class is checked against the executable specification spec_div_k only. (sparse * Kruskal is fully proved on the repaired code: "
+    "C03_mul_kruskal_filtered, findings C03-K1 / C03-K2 fixed in d4293a0.) Memory layout of the factor matrices, Kruskal operand unchanged after "
+    "the call: correspondence only",
     "order-0 operands (pyttb's shape () = the empty tensor): closed theorems C03_order0_generic / C03_order0_generated for the algorithms that do "
     "not enumerate the shape / take pyttb's enumeration as a parameter; the remaining paths (== scalar/dense, logical_not via the hand models, dense "
     "results) by the correspondence checkers ord0_sp_ok / ord0_dense_ok only; open finding C03-Z0 (order-0 dense operand raises)",
